@@ -64,6 +64,7 @@ class Prop:
     title = ''
     model_modules = []          # built first; the driver needs only these
     props_module = None         # LokiModel.Props.Cxx
+    findings_module = None      # LokiModel.Findings.Cxx: witness theorems about open defects (failure to build = note only)
     driver = None               # lean/Drivers/Cxx.lean
     theorems = []               # names that must appear in the audit
     design_ref = ''
@@ -95,6 +96,11 @@ class Prop:
     def classes(self):
         """names of known-finding classes this property's classifier can return"""
         return []
+
+    def post(self, cases, impl_out, model_raw, oracle_fail):
+        """optional cross-checks after a run; returns (problems, extra_coverage): problems = list of strings that make
+        the check report itself broken (exit 2), extra_coverage = dict merged into the evidence"""
+        return [], {}
 
 
 # ------------------------------------------------------------------ helpers
@@ -215,7 +221,7 @@ def corpus_lines(prop):
 
 def save_replay(prop, kind, payload):
     d = OUT / 'replays'
-    d.mkdir(exist_ok=True)
+    d.mkdir(parents=True, exist_ok=True)
     h = hashlib.sha1(json.dumps(payload, sort_keys=True).encode()).hexdigest()[:10]
     f = d / f'{prop.id}-{kind}-{h}.json'
     payload = dict(payload, property=prop.id, kind=kind)
@@ -242,13 +248,14 @@ def _subterms_replace(x):
             yield x[:i] + [v] + x[i + 1:]
 
 
-def shrink(req, still_fails, budget=400):
+def shrink(req, still_fails, budget=400, candidates=None):
     cur = req
     improved = True
     n = 0
+    candidates = candidates or _subterms_replace
     while improved and n < budget:
         improved = False
-        for cand in _subterms_replace(cur):
+        for cand in candidates(cur):
             n += 1
             if n >= budget:
                 break
@@ -309,6 +316,12 @@ def run(prop, tier='quick', seed=0, replay=None):
     if not proofs_ok:
         broken.append(('proof-build ' + prop.props_module, out_p[-1500:]))
 
+    if proofs_ok and prop.findings_module:
+        rc_f, out_f = lake_build([prop.findings_module])
+        if rc_f != 0:
+            say(f'[{prop.id}] note: {prop.findings_module} no longer builds (a listed defect may have been repaired); '
+                'witness theorems about open findings do not gate the verdict')
+
     # 3 audit
     thms = {}
     if proofs_ok:
@@ -331,9 +344,11 @@ def run(prop, tier='quick', seed=0, replay=None):
     impl_out = [safe_impl(prop, c.req) for c in cases]
     disagreements = []
     model_out = None
+    model_raw = None
     if model_ok and cases:
         try:
-            model_out = [dumps(prop.canon_model(loads(l))) for l in run_driver(prop, [c.line for c in cases])]
+            model_raw = run_driver(prop, [c.line for c in cases])
+            model_out = [dumps(prop.canon_model(loads(l))) for l in model_raw]
         except Exception as e:
             broken.append(('driver', str(e)[-1500:]))
     if model_out is not None:
@@ -357,7 +372,7 @@ def run(prop, tier='quick', seed=0, replay=None):
             def still(r):
                 fs = safe_oracle(prop, r)
                 return any(x.cls == f.cls and not x.error for x in fs)
-            small = shrink(c.req, still) if not replay else c.req
+            small = shrink(c.req, still, candidates=getattr(prop, 'shrink_candidates', None)) if not replay else c.req
             fs = [x for x in safe_oracle(prop, small) if x.cls == f.cls]
             what = fs[0].what if fs else f.what
             path = save_replay(prop, 'input', dict(requests=[dumps(small)], original=c.line, what=what,
@@ -414,6 +429,15 @@ def run(prop, tier='quick', seed=0, replay=None):
         say(f'[{prop.id}] violation: {what}')
         say(f'VIOLATION property={prop.id} replay={path}' + (' no-failing-input-found' if nofound else ''))
 
+    # property-specific cross-checks
+    post_problems, extra_cov = [], {}
+    try:
+        post_problems, extra_cov = prop.post(cases, impl_out, model_raw, oracle_fail)
+    except Exception as e:
+        post_problems = [f'post hook raised {type(e).__name__}: {e}']
+    for pp in post_problems:
+        say(f'[{prop.id}] CHECK INCONSISTENT: {pp}')
+
     # evidence
     streams = {}
     for c in cases:
@@ -434,9 +458,10 @@ def run(prop, tier='quick', seed=0, replay=None):
         known_classes_hit=sorted(known_hit),
         theorems=thms,
     )
+    cov.update(extra_cov or {})
     write_evidence(prop, tier, seed, t0, cov, thms=thms, obligations=obligations, discharged=discharged,
                    violations=len(violations))
-    if any(b[0] == 'driver' for b in broken) and not violations:
+    if (any(b[0] == 'driver' for b in broken) or post_problems) and not violations:
         return 2
     return 1 if violations else 0
 
@@ -457,7 +482,7 @@ def write_evidence(prop, tier, seed, t0, cov, thms=None, obligations=None, disch
     ev = dict(property_id=prop.id, tier=tier if tier in ('quick', 'thorough') else 'quick', seed=seed, level=prop.level,
               coverage=cov, assumptions=list(prop.assumptions), wall_s=round(time.time() - t0, 2), violations=violations)
     d = OUT / 'evidence'
-    d.mkdir(exist_ok=True)
+    d.mkdir(parents=True, exist_ok=True)
     (d / f'{prop.id}.json').write_text(json.dumps(ev, indent=1, default=str))
 
 
